@@ -394,6 +394,98 @@ def run(ctx):
             ctx.fail("expression-slot-exception", f"{type(e).__name__}: {e}", case)
     ctx.streams["expression in any slot, values changed between evaluations"] = n_x
 
+    # ---------------------------------------------------------------- expressions built with Python operators
+    # (Parameter arithmetic with float constants of full precision, the r_to_theta / reflectivity overloads; the oracle
+    #  here is the same formula evaluated on Python floats — harness arithmetic, not the Coq model)
+    import cmath
+    n_op = ctx.n(80, 800)
+    for i in range(n_op):
+        r = rng.fork(("operators", i))
+        t = Parameter(f"t{i}")
+        u = Parameter(f"u{i}")
+        consts = [2 * math.pi, math.pi / 3, 1234567.5, 0.123456789012, 1e-7 * 3.3333333333, 7.0, 2.0, 1.0 / 3.0,
+                  float(r.rint(1, 999999)) / 997.0]
+        k1, k2 = r.choice(consts), r.choice(consts)
+        forms = [
+            ("k1*t", lambda: k1 * t, lambda a, b: k1 * a),
+            ("t*k1", lambda: t * k1, lambda a, b: a * k1),
+            ("t/k1", lambda: t / k1, lambda a, b: a / k1),
+            ("t+k1", lambda: t + k1, lambda a, b: a + k1),
+            ("k1+t", lambda: k1 + t, lambda a, b: k1 + a),
+            ("t-k1", lambda: t - k1, lambda a, b: a - k1),
+            ("k1-t", lambda: k1 - t, lambda a, b: k1 - a),
+            ("-t", lambda: -t, lambda a, b: -a),
+            ("t**2", lambda: t ** 2, lambda a, b: a ** 2),
+            ("k1*t+k2*u", lambda: k1 * t + k2 * u, lambda a, b: k1 * a + k2 * b),
+            ("(t+u)*k1", lambda: (t + u) * k1, lambda a, b: (a + b) * k1),
+            ("t*u", lambda: t * u, lambda a, b: a * b),
+            ("k1*t-u/k2", lambda: k1 * t - u / k2, lambda a, b: k1 * a - b / k2),
+        ]
+        name, build, oracle = r.choice(forms)
+        vals = [(r.rint(-4000, 4000) / 1000.0 + 1e-9 * r.rint(0, 999), r.rint(-4000, 4000) / 1000.0) for _ in range(r.rint(2, 3))]
+        preset = r.chance(1, 2)          # do the parameters hold a value when the expression is built?
+        case = {"expression": name, "k1": k1, "k2": k2, "values (t, u) per evaluation": vals, "parameters hold a value when bound": preset}
+        ctx.case(["operators", name, k1, k2, vals, preset], True, case)
+        ctx.count("operators." + name)
+        try:
+            if preset:
+                t.set_value(0.25)
+                u.set_value(0.5)
+            ex = build()
+            ps = PS(ex)
+            for qi, (a, b) in enumerate(vals):
+                t.set_value(a)
+                u.set_value(b)
+                want = oracle(a, b)
+                got = float(ex)
+                if abs(got - want) > 1e-12 * max(1.0, abs(want)):
+                    ctx.fail("operator-expression-value", f"the value of a Parameter expression built with Python operators is not "
+                             f"the formula evaluated at the current values (evaluation {qi + 1})", case, want, got)
+                    break
+                z = complex(ps.compute_unitary()[0, 0])
+                if abs(z - cmath.exp(1j * want)) > 1e-9:
+                    ctx.fail("operator-expression-stale", f"PS bound to the expression does not carry exp(i * value) (evaluation {qi + 1})",
+                             case, str(cmath.exp(1j * want)), str(z))
+                    break
+        except Exception as e:
+            ctx.fail("operator-expression-exception", f"{type(e).__name__}: {e}", case)
+    ctx.streams["expressions built with Python operators"] = n_op
+
+    n_rt = ctx.n(40, 400)
+    for i in range(n_rt):
+        r = rng.fork(("r_to_theta", i))
+        cv = r.below(3)
+        rp = Parameter(f"r{i}")
+        preset = r.chance(1, 2)
+        vals = [r.rint(1, 999) / 1000.0 for _ in range(r.rint(2, 3))]
+        case = {"component": "BS(theta=BS.r_to_theta(r))", "convention": CONV[cv], "reflectivities per evaluation": vals,
+                "r holds a value when bound": preset}
+        ctx.case(["r_to_theta", cv, vals, preset], True, case)
+        ctx.count("r_to_theta." + CONV[cv])
+        try:
+            if preset:
+                rp.set_value(0.5)
+            bs = BS(theta=BS.r_to_theta(rp), convention=conv_enum[CONV[cv]])
+            for qi, rv in enumerate(vals):
+                rp.set_value(rv)
+                m_ = bs.compute_unitary()
+                got = abs(complex(m_[0, 0])) ** 2
+                if abs(got - rv) > 1e-9:
+                    ctx.fail("r_to_theta-stale", f"a beam splitter built with BS.r_to_theta(r) does not have reflectivity r at the "
+                             f"current value (evaluation {qi + 1})", case, rv, got)
+                    break
+                refl = bs.reflectivity
+                if abs(float(refl) - rv) > 1e-9:
+                    ctx.fail("reflectivity-stale", "BS.reflectivity differs from the current reflectivity", case, rv, float(refl))
+                    break
+            # the numeric overloads
+            x = r.rint(1, 999) / 1000.0
+            if abs(BS.theta_to_r(BS.r_to_theta(x)) - x) > 1e-12:
+                ctx.fail("r_to_theta-numeric", "theta_to_r(r_to_theta(x)) != x", {"x": x}, x, BS.theta_to_r(BS.r_to_theta(x)))
+        except Exception as e:
+            ctx.fail("r_to_theta-exception", f"{type(e).__name__}: {e}", case)
+    ctx.streams["r_to_theta / reflectivity overloads"] = n_rt
+
     # cross-check the extraction against vm_compute on a sample
     if not ctx.quick() or True:
         sample = [(1, [0, QI(Fraction(3, 5)), QI(Fraction(4, 5)), QI(1), QI(0, 1), QI(Fraction(5, 13), Fraction(12, 13)), QI(1)]),
